@@ -30,3 +30,15 @@ ENTRY["level_text"] = ENTRY["level_text"].replace(
     "(Props/C04Timer.lean, 33 theorems: closed forms, shortest timeout per type, three_delays_fit, slot alignment and doubling of the "
     "eager timer) tied by the roundtimer stream. The composition with partially progressed earlier rounds and wall-clock termination "
     "(timely delivery")
+
+# honest broadcasts against the receive-side limits of the real handler (core/consensus/qbft verifyMsgLimits):
+# T-const constants + Props/C04Limits.honest_within_wire_limits; the admission stream of C05 carries the largest
+# honest message shapes (n ROUND-CHANGEs + n PREPAREs) and the monitor qbftwire:honest_message_rejected
+from vlib.trans_qbftconst import qbftconst as _qc
+from vlib.props_C05 import ENTRY as _E05
+ENTRY["go_tools"] = list(ENTRY.get("go_tools", [])) + ["extract-qbftconst"]
+ENTRY["translators"] = list(ENTRY.get("translators", [])) + [_qc]
+ENTRY["lean_props_extra"].append("CharonV.Props.C04Limits")
+ENTRY["streams"] = ENTRY["streams"] + [dict(_E05["streams"][0], seeds_quick=1)]
+ENTRY["monitor_sigs"] = ENTRY["monitor_sigs"] + ["qbftwire:honest_message_rejected"]
+ENTRY["trusted_base"] = ENTRY["trusted_base"] + ["translator T-const (extract-qbftconst): the factor of verifyMsgLimits' justification bound, statement shape checked, fails closed"]
